@@ -2,9 +2,9 @@
 from checks.enginelib import *
 
 META = {
-    "text": 'Lean: component model Events; inductive invariant Events.Inv (step_inv); theorems over all accepted event sequences: event_implies_durable (every published event has a persisted entry with that content), event_only_for_durable (at the publishing step: never a preview, the event describes the entry of the publishing request, persisted at that moment), describes_content + roles_matter (for a revert: which transaction was reverted and which reverts it; exchanged roles are rejected), event_without_entry_rejected, ack_implies_published + answer_only_when_published (a real write is answered successfully only after an event describing its entry is on the bus), preview_never_publishes, event_stays_backed, no_event_without_entry_after_crash. Tie: trace validation with a recording bus.Monitor; oracle on events vs the durable log at publication time.',
-    "note": 'Trusted: Lean kernel; event extraction. The mapping bus.Monitor -> message payload (ledgerMonitor) is not modelled.',
-    "technique": 'Lean 4 proof (inductive invariant of the Events component) + trace validation + event oracle + regenerated commander skeleton (extract/commander -> Generated/Commander.lean on every run): well-formedness of every control path by decide, refinement of this component by the interpreted skeleton under every schedule, observed runs re-executed in the skeleton system',
+    "text": 'Lean: component model Events; inductive invariant Events.Inv (step_inv); theorems over all accepted event sequences: event_implies_durable (every published event has a persisted entry with that content), event_only_for_durable (at the publishing step: never a preview, the event describes the entry of the publishing request, persisted at that moment), describes_content + roles_matter (for a revert: which transaction was reverted and which reverts it; exchanged roles are rejected), event_without_entry_rejected, ack_implies_published + answer_only_when_published (a real write is answered successfully only after an event describing its entry is on the bus), preview_never_publishes, event_stays_backed, no_event_without_entry_after_crash. Tie: trace validation on what reaches the message.Publisher behind the REAL bus.NewLedgerMonitor (messages decoded back into event records; the calls the commander makes on the monitor are recorded next to them); oracle on events vs the durable log at publication time, persisted-but-never-published absent crashes, and every announcement the commander asked for reached the bus with the same content (event-dropped / -altered-by-monitor, event-not-asked-for, envelope).',
+    "note": 'Trusted: Lean kernel; event extraction (the decoding of the published JSON message back into the event record, generic JSON, none of the repository types). The ledgerMonitor itself is run, not modelled.',
+    "technique": 'Lean 4 proof (inductive invariant of the Events component) + trace validation + event oracle over the messages the real ledgerMonitor publishes + regenerated commander skeleton (extract/commander -> Generated/Commander.lean on every run): well-formedness of every control path by decide, refinement of this component by the interpreted skeleton under every schedule, observed runs re-executed in the skeleton system',
     "design_ref": '5 (C16)',
 }
 
